@@ -551,7 +551,28 @@ func countedLoopBound(call ssa.CallInstruction) (ssa.Value, string) {
 			}
 		}
 	}
-	return nil, "the pop is not inside a recognised counted loop (for range n / for i := 0; i < n; i++)"
+	// range over a slice (for k := range s): header: phi [-1, phi+1]; inc = phi+1; if inc < len(s) goto body else done
+	if ifi, ok := hdr.Instrs[len(hdr.Instrs)-1].(*ssa.If); ok && hdr != b {
+		if cmp, ok := ifi.Cond.(*ssa.BinOp); ok && cmp.Op == token.LSS && hdr.Succs[0] == b {
+			if inc, ok := cmp.X.(*ssa.BinOp); ok && inc.Op == token.ADD && isConstInt(inc.Y, 1) {
+				if phi, ok := inc.X.(*ssa.Phi); ok && phi.Block() == hdr {
+					initMinus, back := false, false
+					for _, e := range phi.Edges {
+						if isConstInt(e, -1) {
+							initMinus = true
+						}
+						if e == ssa.Value(inc) {
+							back = true
+						}
+					}
+					if initMinus && back && reach(b, nil)[hdr] {
+						return cmp.Y, ""
+					}
+				}
+			}
+		}
+	}
+	return nil, "the pop is not inside a recognised counted loop (for range n / for i := 0; i < n; i++ / for i := range s)"
 }
 
 // isProdIndex: v is productions[idx] loaded (a *grammar.Production value) for the grammar's production list.
